@@ -173,7 +173,7 @@ hs_dateTime = (hs_isoDateTime + \
 
 hs_val = Forward()
 hs_list = Group( \
-    Suppress(Regex(r'[ *]')) |
+    Suppress(Regex(r'\[ *\]')) |
     (Suppress(Regex(r'\[ *')) +
      Optional(DelimitedList( \
          hs_val, \
